@@ -314,7 +314,11 @@ pub struct SystemRun {
 
 /// Evaluate `src` as a REPL line in the full system (see `run_session_traced`).
 pub fn run_system_traced(src: &str, b: &Builtins, max_rounds: usize) -> Result<SystemRun, String> {
-    run_session_traced(&[src.to_string()], b, max_rounds)
+    run_session_traced_on(&[src.to_string()], b, max_rounds, 1)
+}
+
+pub fn run_session_traced(lines: &[String], b: &Builtins, max_rounds: usize) -> Result<SystemRun, String> {
+    run_session_traced_on(lines, b, max_rounds, 1)
 }
 
 /// Evaluate `lines` one after the other as REPL lines in the full system (real `Environment` + one
@@ -323,12 +327,17 @@ pub fn run_system_traced(src: &str, b: &Builtins, max_rounds: usize) -> Result<S
 /// nothing" (time slice 0) and "execute the front of the run queue" (no command visible), so the
 /// process that runs is known before the step. The next line is submitted only when no process is
 /// runnable (the REPL's own bookkeeping rounds then execute nothing untraced).
-pub fn run_session_traced(lines: &[String], b: &Builtins, max_rounds: usize) -> Result<SystemRun, String> {
+///
+/// With `n_workers > 1` processes live on different executors (pid round-robin) and values cross
+/// between them by copy; the instruction trace is thread-local and the simulator single-threaded,
+/// so every traced worker step is attributed to `(worker, front of that worker's run queue)`; pids
+/// are global, so a process's trace is still one sequence.
+pub fn run_session_traced_on(lines: &[String], b: &Builtins, max_rounds: usize, n_workers: usize) -> Result<SystemRun, String> {
     use qverif::sim::{Choice, Sim};
     let lines = lines.to_vec();
     let b = b.clone();
     catch(move || {
-        let mut sim = Sim::new(1, None, b, false).with_repl(HashMap::new());
+        let mut sim = Sim::new(n_workers, None, b, false).with_repl(HashMap::new());
         let mut traces: std::collections::BTreeMap<usize, Trace> = Default::default();
         let mut repl_lines: Vec<Trace> = vec![];
         let mut unattributed = 0usize;
@@ -366,23 +375,25 @@ pub fn run_session_traced(lines: &[String], b: &Builtins, max_rounds: usize) -> 
                     };
                     break;
                 }
-                sim.step(Choice::Env { visible: vec![usize::MAX] });
-                // commands only
-                sim.quantum = Some(0);
-                sim.step(Choice::Worker { i: 0, visible: usize::MAX });
-                // settle expired time-outs into the queue
-                sim.step(Choice::Worker { i: 0, visible: 0 });
-                sim.quantum = None;
-                let pid = sim.workers[0].verif_executor().verif_queue().first().copied();
-                quiver_core::executor::verif::set_trace(Some(vec![]));
-                sim.step(Choice::Worker { i: 0, visible: 0 });
-                let seg = quiver_core::executor::verif::take_trace().unwrap_or_default();
-                quiver_core::executor::verif::set_trace(None);
-                if !seg.is_empty() {
-                    match pid {
-                        Some(pid) if pid == repl_pid => repl_lines.last_mut().unwrap().extend(seg),
-                        Some(pid) => traces.entry(pid).or_default().extend(seg),
-                        None => unattributed += 1,
+                sim.step(Choice::Env { visible: vec![usize::MAX; n_workers] });
+                for w in 0..n_workers {
+                    // commands only
+                    sim.quantum = Some(0);
+                    sim.step(Choice::Worker { i: w, visible: usize::MAX });
+                    // settle expired time-outs into the queue
+                    sim.step(Choice::Worker { i: w, visible: 0 });
+                    sim.quantum = None;
+                    let pid = sim.workers[w].verif_executor().verif_queue().first().copied();
+                    quiver_core::executor::verif::set_trace(Some(vec![]));
+                    sim.step(Choice::Worker { i: w, visible: 0 });
+                    let seg = quiver_core::executor::verif::take_trace().unwrap_or_default();
+                    quiver_core::executor::verif::set_trace(None);
+                    if !seg.is_empty() {
+                        match pid {
+                            Some(pid) if pid == repl_pid => repl_lines.last_mut().unwrap().extend(seg),
+                            Some(pid) => traces.entry(pid).or_default().extend(seg),
+                            None => unattributed += 1,
+                        }
                     }
                 }
                 if !sim.faults.is_empty() {
